@@ -3258,6 +3258,8 @@ def _check_entry_for_changes(
     root_path: bytes,
     filter_blob_callback: Callable[[Blob, bytes], Blob] | None = None,
     trust_ctime: bool = True,
+    honor_filemode: bool = False,
+    has_symlinks: bool = True,
 ) -> bytes | None:
     """Check a single index entry for changes.
 
@@ -3290,6 +3292,20 @@ def _check_entry_for_changes(
 
         if not stat.S_ISREG(st.st_mode) and not stat.S_ISLNK(st.st_mode):
             return None
+
+        # A changed type (file <-> symlink) or executable bit is a change even
+        # when the bytes are the same; like git, look at the mode before the
+        # stat shortcut and before comparing blob ids.
+        if not S_ISGITLINK(entry.mode):
+            if has_symlinks and stat.S_ISLNK(st.st_mode) != stat.S_ISLNK(entry.mode):
+                return tree_path
+            if (
+                honor_filemode
+                and stat.S_ISREG(st.st_mode)
+                and stat.S_ISREG(entry.mode)
+                and (st.st_mode ^ entry.mode) & 0o100
+            ):
+                return tree_path
 
         # Optimization: If stat matches index entry (mtime and size unchanged),
         # we can skip reading and filtering the file entirely. This is a significant
@@ -3328,6 +3344,8 @@ def get_unstaged_changes(
     preload_index: bool = False,
     trust_ctime: bool = True,
     max_stat: int | None = None,
+    honor_filemode: bool = False,
+    has_symlinks: bool = True,
 ) -> Generator[bytes, None, None]:
     """Walk through an index and check for differences against working tree.
 
@@ -3339,6 +3357,10 @@ def get_unstaged_changes(
       trust_ctime: If True, use ctime for change detection (default: True)
       max_stat: If set, limit the number of stat operations performed.
         When the limit is reached, remaining files are assumed unchanged.
+      honor_filemode: If True, a changed executable bit counts as a change
+        (core.filemode; callers pass the repository's setting)
+      has_symlinks: If True, a file replaced by a symlink (or vice versa)
+        counts as a change even when the bytes are the same (core.symlinks)
     Returns: iterator over paths with unstaged changes
     """
     # For each entry in the index check the sha1 & ensure not staged
@@ -3377,6 +3399,8 @@ def get_unstaged_changes(
                         root_path,
                         filter_blob_callback,
                         trust_ctime,
+                        honor_filemode,
+                        has_symlinks,
                     )
                     for tree_path, entry in entries
                 ]
@@ -3393,7 +3417,13 @@ def get_unstaged_changes(
             if max_stat is not None and stat_count >= max_stat:
                 return
             result = _check_entry_for_changes(
-                tree_path, entry, root_path, filter_blob_callback, trust_ctime
+                tree_path,
+                entry,
+                root_path,
+                filter_blob_callback,
+                trust_ctime,
+                honor_filemode,
+                has_symlinks,
             )
             stat_count += 1
             if result is not None:
